@@ -86,4 +86,14 @@ CHECKS = {
            "not take."),
   "design_ref": "DESIGN.md §5 C19", "note": _NOTE,
   "technique": "static analysis: effect/typestate analysis by evaluating operation ASTs over frozen abstract models (store = finding), state-independence by double evaluation, recording stubs for the random source"},
+ "C17": {
+  "text": ("Evaluates the whole report pipeline (FMMetrics, its metric methods discovered through the evaluated "
+           "decorator, the dependency's Metrics.execute/get_ratio/construct_result from source) as one formula over "
+           "abstract models covering root-only, edge, bushy, every relation kind/constraint class, and a mandatory "
+           "child beside a group. Decided: no metric raises; each name once; size=len(result); ratio = size / size of "
+           "the listing it is a share of, in [0,1]; all defining identities; each metric equals its definition computed "
+           "on the abstract tree; duplicates agree with the stand-alone operations; filter by name. Not decided: "
+           "models outside the family (the metrics are map/filter/aggregate compositions over listings decided by C03)."),
+  "design_ref": "DESIGN.md §5 C17", "note": _NOTE,
+  "technique": "static analysis: formula evaluation of the metrics pipeline ASTs (incl. decorator discovery and dependency source) over abstract models; identities and definitions as oracles"},
 }
